@@ -36,9 +36,11 @@ theorem duration_no_wrap (d : Int) (hd : inInt64 d) :
       rw [Int.neg_tdiv]; exact congrArg _ (tdiv_nat u 1000000000)
     rw [t1]; omega
 
-/-- `duration_roundtrip` (under DUR-RT): `UnmarshalText(MarshalText(d)) = d` for every
-`int64` duration. -/
-theorem duration_roundtrip (parseDuration : Bytes → Option Int) (C : DurRT parseDuration)
+/-- `duration_roundtrip_of_contract`: `UnmarshalText(MarshalText(d)) = d` for every `int64`
+duration and *any* parser satisfying DUR-RT.  The contract is proved for the Lean model of
+`time.ParseDuration` in `Theorems/C14Parse.lean` (`parse_stdString`, `parse_golibs_string`),
+where `duration_roundtrip` is stated without it. -/
+theorem duration_roundtrip_of_contract (parseDuration : Bytes → Option Int) (C : DurRT parseDuration)
     (d : Int) (hd : inInt64 d) :
     (durationMarshalText d).map (durationUnmarshalText parseDuration) = .ok (some d) := by
   unfold durationMarshalText durationUnmarshalText
